@@ -289,6 +289,10 @@ KDFPY = "lib/Crypto/Protocol/KDF.py"
 M("c12.scrypt.compose.idx", "C12", KDFPY, "        idx = flow * 128 * r\n", "        idx = flow * 128\n", "K-pw|scrypt.composition")
 M("c12.scrypt.compose.order", "C12", KDFPY, "        data_out += [get_raw_buffer(buffer_out)]", "        data_out = [get_raw_buffer(buffer_out)] + data_out", "K-pw|scrypt.composition")
 M("c12.s2v.derive.clobber", "C12", KDFPY, "            final = strxor(padded, self._double(self._cache))", "            self._cache = self._double(self._cache)\n            final = strxor(padded, self._cache)", "SEG|s2v.histories")
+PBESPY = "lib/Crypto/IO/_PBES.py"
+M("c08.pbes2.reader.aes192gcm.keysize", "C08", PBESPY, "            cipher_mode = AES.MODE_GCM\n            key_size = 24\n            cipher_param = 'nonce'", "            cipher_mode = AES.MODE_GCM\n            key_size = 32\n            cipher_param = 'nonce'", "K-pw|pbes2.roundtrip")
+M("c08.pbes2.writer.scrypt.params", "C08", PBESPY, "                        DerInteger(scrypt_r),\n                        DerInteger(scrypt_p)", "                        DerInteger(scrypt_p),\n                        DerInteger(scrypt_r)", "K-pw|pbes2.roundtrip")
+M("c08.hash.new.sha512_224", "C08", "lib/Crypto/Hash/__init__.py", "        return SHA512.new(truncate='224')", "        return SHA512.new(truncate='256')", "K-pw|pbes2.roundtrip")
 RSAPY = "lib/Crypto/PublicKey/RSA.py"
 M("c07.toy.rsa.crt.h", "C07", RSAPY, "h = ((m2 - m1) * self._u) % self._q", "h = ((m1 - m2) * self._u) % self._q", "K-pw|rsa.toy.decrypt")
 M("c07.toy.rsa.crt.abs", "C07", RSAPY, "h = ((m2 - m1) * self._u) % self._q", "h = (abs(m2 - m1) * self._u) % self._q", "K-pw|rsa.toy.decrypt")
